@@ -565,6 +565,192 @@ pub fn case_strategy() -> impl Strategy<Value = LinearCase> {
     })
 }
 
+// ------------------------------------------------------------------ racing for composite single-use values
+
+/// Threads racing for ONE single-use value whose owned leaves sit in several cells
+/// (a Vec / tuple of leaves): whatever the interleaving, exactly one request gets all
+/// of them and every other request panics.
+#[derive(Clone, Debug, PartialEq, Eq, Hash, Serialize, Deserialize)]
+pub struct LeafRaceCase {
+    pub shape: Shape,
+    pub threads: u8,
+    pub shared: bool,
+    pub creator: bool,
+    pub once: bool,
+    pub schedule: Vec<u8>,
+}
+
+pub struct LeafRaceRun {
+    pub decisions: Vec<(u8, u8)>,
+    pub switches: usize,
+}
+
+pub fn execute_leaf_race(case: &LeafRaceCase, schedule: &[u8]) -> Result<LeafRaceRun, String> {
+    let reg = Arc::new(Reg::default());
+    let mut dc = DynClause::new();
+    let item = Item { shape: case.shape, ordered: false, once: case.once, requests: case.threads, drop_delivered_early: false };
+    let conf = configure(&mut dc, &reg, 0, &item);
+    let original = catch(move || Unimock::new(dc).no_verify_in_drop()).map_err(|e| format!("HARNESS: construction panicked: {e}"))?;
+    let shape = case.shape;
+    let first_spawned = case.creator as usize;
+    let mut bodies: Vec<Box<dyn FnOnce() -> Result<Delivered, String> + Send>> = vec![];
+    let (original, run) = if case.shared {
+        let arc = Arc::new(original);
+        for _ in first_spawned..case.threads as usize {
+            let h = arc.clone();
+            bodies.push(Box::new(move || {
+                let r = request(&h, 0, shape);
+                drop(h);
+                r
+            }));
+        }
+        let run = {
+            let inline: Option<Box<dyn FnOnce() -> Result<Delivered, String> + '_>> = if case.creator {
+                let h: &Unimock = &arc;
+                Some(Box::new(move || request(h, 0, shape)))
+            } else {
+                None
+            };
+            crate::sched::run_with_inline(inline, bodies, schedule)
+        };
+        let o = Arc::try_unwrap(arc).map_err(|_| "HARNESS: a thread kept its handle".to_string())?;
+        (o, run)
+    } else {
+        for _ in first_spawned..case.threads as usize {
+            let c = original.clone();
+            bodies.push(Box::new(move || {
+                let r = request(&c, 0, shape);
+                drop(c);
+                r
+            }));
+        }
+        let run = {
+            let inline: Option<Box<dyn FnOnce() -> Result<Delivered, String> + '_>> = if case.creator {
+                let h: &Unimock = &original;
+                Some(Box::new(move || request(h, 0, shape)))
+            } else {
+                None
+            };
+            crate::sched::run_with_inline(inline, bodies, schedule)
+        };
+        (original, run)
+    };
+    if run.hung {
+        let _ = catch(move || drop(original));
+        return Err("HARNESS: watchdog: a scheduled thread did not get the token within 20 s".into());
+    }
+    let mut verdict: Result<(), String> = Ok(());
+    let mut winners = 0;
+    for (t, r) in run.results.iter().enumerate() {
+        match r {
+            Ok(Delivered::Tokens(ts)) => {
+                let got: Vec<u32> = ts.iter().map(|x| x.id).collect();
+                if got == conf.ids {
+                    winners += 1;
+                } else {
+                    verdict = Err(format!("thread {t}: a request returned owned leaves {got:?} instead of all of {:?} or a panic", conf.ids));
+                }
+            }
+            Ok(Delivered::CTokens(_)) => verdict = Err("HARNESS: clone tokens in a single-use race".into()),
+            Err(msg) if msg.contains("borrowed leaf") => verdict = Err(format!("thread {t}: {msg}")),
+            Err(_) => {}
+        }
+    }
+    if verdict.is_ok() && winners != 1 {
+        verdict = Err(format!(
+            "{winners} of {} racing requests received the single-use value {:?} (exactly one must)",
+            case.threads, conf.ids
+        ));
+    }
+    if verdict.is_ok() {
+        for id in &conf.ids {
+            if reg.drops(*id) != 0 {
+                verdict = Err(format!("leaf {id} was dropped while its receiver still holds it / the mock is alive"));
+            }
+        }
+    }
+    let _ = catch(move || drop(original));
+    drop(run.results);
+    if verdict.is_ok() {
+        for id in 0..reg.len() {
+            let d = reg.drops(id);
+            if d != 1 {
+                verdict = Err(format!("after teardown value {id} was dropped {d} times (expected exactly once)"));
+                break;
+            }
+        }
+    }
+    verdict.map(|()| LeafRaceRun { decisions: run.decisions, switches: run.switches })
+}
+
+pub fn check_leaf_race(case: &LeafRaceCase) -> Result<CaseInfo, String> {
+    let r = execute_leaf_race(case, &case.schedule)?;
+    Ok(CaseInfo::new(r.switches >= 2)
+        .class(match case.shape {
+            Shape::VecRes => "vec-of-two-owned-leaves",
+            Shape::Triple => "tuple-of-two-owned-leaves",
+            Shape::OptResErr => "leaf-two-levels-down",
+            _ => "single-leaf",
+        })
+        .class_if(case.shared, "shared-&Unimock")
+        .class_if(case.creator, "creator-thread-takes-part")
+        .class_if(case.threads >= 3, "three-or-more-threads"))
+}
+
+const RACE_SHAPES: [Shape; 4] = [Shape::VecRes, Shape::Triple, Shape::OptResErr, Shape::Take];
+
+pub fn leaf_race_exhaustive(limit: u64) -> vcore::SubReport {
+    let mut rep = vcore::SubReport::new("racing-leaves-exhaustive");
+    rep.exhaustive = true;
+    let mut per_config = vec![];
+    'outer: for shape in RACE_SHAPES {
+        for (shared, creator) in [(false, false), (true, false), (false, true), (true, true)] {
+            let base = LeafRaceCase { shape, threads: 2, shared, creator, once: shared ^ creator, schedule: vec![] };
+            let mut execs = 0u64;
+            let mut with_switches = 0u64;
+            let r = crate::sched::enumerate(limit, |path| {
+                let e = execute_leaf_race(&base, path)?;
+                execs += 1;
+                if e.switches >= 2 {
+                    with_switches += 1;
+                }
+                Ok(e.decisions)
+            });
+            rep.evaluations += execs;
+            for i in 0..with_switches {
+                rep.nontrivial.insert(vcore::stable_hash(&(shape, shared, creator, i)));
+            }
+            match r {
+                Ok(Some(n)) => per_config.push(serde_json::json!({"shape": format!("{shape:?}"), "threads": 2, "shared_handle": shared, "creator_takes_part": creator, "schedules": n, "complete": true})),
+                Ok(None) => {
+                    rep.exhaustive = false;
+                    per_config.push(serde_json::json!({"shape": format!("{shape:?}"), "threads": 2, "shared_handle": shared, "creator_takes_part": creator, "schedules": execs, "complete": false}));
+                }
+                Err((path, reason)) => {
+                    let mut c = base.clone();
+                    c.schedule = path;
+                    if reason.starts_with("HARNESS") {
+                        rep.inconclusive = Some(reason);
+                    } else {
+                        rep.fail(&c, reason);
+                    }
+                    break 'outer;
+                }
+            }
+            if rep.samples.len() < 2 {
+                rep.samples.push(serde_json::to_value(&base).unwrap());
+            }
+        }
+    }
+    rep.extra.insert("configurations".into(), serde_json::json!(per_config));
+    rep
+}
+
+fn leaf_race_strategy() -> impl Strategy<Value = LeafRaceCase> {
+    (0..RACE_SHAPES.len(), 2..=4u8, any::<bool>(), any::<bool>(), any::<bool>(), vec(any::<u8>(), 0..64))
+        .prop_map(|(s, threads, shared, creator, once, schedule)| LeafRaceCase { shape: RACE_SHAPES[s], threads, shared, creator, once, schedule })
+}
+
 pub fn grid() -> Vec<LinearCase> {
     let mut v = vec![];
     for shape in [
@@ -627,14 +813,26 @@ pub fn run(ctx: &Ctx) -> Verdict {
     let tier = ctx.tier.name();
     v.subs.push(vcore::sub_report_from("progen", &["--sub-json", "C12", tier], "compile-fail"));
     for mut s in super::c10::run_kinds(ctx, small, &[super::c10::Kind::SingleUse, super::c10::Kind::SingleUseThen]) {
-        s.name = format!("racing-{}", s.name);
+        let renamed = format!("racing-{}", s.name);
+        s.rename(renamed);
         v.subs.push(s);
+    }
+    // composite single-use values (several cells) under every interleaving of two threads, sampled for 2-4
+    #[cfg(feature = "std")]
+    {
+        v.subs.push(leaf_race_exhaustive(ctx.tier.pick(150_000, 2_000_000) as u64));
+        let n = ctx.tier.pick(8_000, 300_000);
+        v.subs.push(vcore::run_proptest(ctx, "racing-leaves-sampled", n, leaf_race_strategy(), check_leaf_race));
     }
     v.subs.extend(super::variant_reports(ctx, &["nostd-spin"]));
     v
 }
 
 pub fn replay(sub: &str, case: Value) -> Result<(), String> {
+    if sub.starts_with("racing-leaves") {
+        let c: LeafRaceCase = serde_json::from_value(case).map_err(|e| format!("HARNESS: bad case: {e}"))?;
+        return check_leaf_race(&c).map(|_| ());
+    }
     if sub.starts_with("racing") {
         return super::c10::replay(sub, case);
     }
